@@ -20,7 +20,7 @@ ASSUMPTIONS = [
 TECHNIQUE = "grammar-generated formulas; exhaustive candidate box vs truth-functional reference, both directions"
 
 SIMPLE = S.profile(min_tasks=1, max_tasks=3, horizon=(2, 5), p_no_horizon=0, p_resources=0, task_constraints=(0, 1), optional_rules=(0, 0), resource_constraints=(0, 0),
-                   fol=(1, 2), fol_depth=3, optional_constraints=0, p_optional=15, p_release=10, p_due=10)
+                   fol=(1, 2), fol_depth=3, optional_constraints=0, p_optional=15, p_release=10, p_due=10, p_shared_operand=25)
 OPTC = S.profile(min_tasks=1, max_tasks=3, horizon=(2, 5), p_no_horizon=0, p_resources=0, task_constraints=(1, 3), optional_rules=(0, 0), resource_constraints=(0, 0),
                  fol=(0, 1), fol_depth=2, optional_constraints=55, p_optional=10, p_release=10, p_due=10)
 AUX_LEAVES = S.SIMPLE_LEAVES + ["TasksContiguous", "UnorderedTaskGroup", "OrderedTaskGroup", "ScheduleNTasksInTimeIntervals"]
@@ -30,7 +30,7 @@ AUX = S.profile(min_tasks=2, max_tasks=3, horizon=(2, 5), p_no_horizon=0, p_reso
 
 def has_aux_under_negation(c, neg=False):
     """a leaf owning auxiliary unknowns used where its truth value matters negatively"""
-    if "op" in c:
+    if "op" in c or "ref" in c:
         return False
     ty = c["type"]
     if ty in ("TasksContiguous", "UnorderedTaskGroup", "OrderedTaskGroup", "ScheduleNTasksInTimeIntervals"):
